@@ -542,6 +542,12 @@ def c01_13(ctx):
     return out
 
 
+def c01_14(ctx):
+    """MEMO: no verdict / product is remembered under a key that leaves out part of (key, digest, r, s)"""
+    from sa.memo import memo_obligation
+    return memo_obligation(ctx, ["pecc"], "a tuple accepted for one key would be accepted for another")
+
+
 OBLIGATIONS = [
     ("C01.1", "RANGE accept-set", c01_1),
     ("C01.2", "GUARD relation", c01_2),
@@ -556,5 +562,6 @@ OBLIGATIONS = [
     ("C01.11", "GUARD", c01_11),
     ("C01.12", "RANGE reader domain", c01_12),
     ("C01.13", "GUARD verdict source", c01_13),
+    ("C01.14", "MEMO", c01_14),
 ]
 FLOORS = {"C01.1": 2, "C01.4": 2, "C01.5": 2, "C01.8": 8, "C01.9": 5, "C01.10": 4}
